@@ -12,7 +12,7 @@
     correspondence R vs S on return codes ("returns FAIL rather than appearing to succeed"). *)
 From Coq Require Import ZArith List Bool.
 Import ListNotations.
-Require Import H4.gen.Gen_RO H4.ROModel H4.ROProofs.
+Require Import H4.gen.Gen_RO H4.ROModel H4.ROProofs H4.SDModel H4.SDProofs.
 Require H4.ROSpec.
 Local Open Scope Z_scope.
 
@@ -304,6 +304,53 @@ Theorem hopen_read_only_flags : forall mode, Z.land mode DFACC_WRITE = 0 ->
 Proof. exact hopen_readonly_flags. Qed.
 Print Assumptions hopen_read_only_flags.
 
+(** ---- SD layer (guard-structure model SDModel composed with the L1 model) ----
+
+    For a file opened with SDstart without DFACC_WRITE, for EVERY history of SD calls -- the sixteen guarded mutators,
+    SDsetfillmode, SDgetdimscale (which marks the header dirty even on a read-only handle), every reader, SDend with its
+    ncclose / hdf_close / Hclose tail -- and WHATEVER L1 calls each of them issues (the L1 operation lists are
+    universally quantified): no device write, the in-memory header is never changed, NC_RDWR stays clear, the L1
+    record stays read-only, and every mutator returns FAIL. *)
+Theorem sd_ro_silent : forall HDFmode dds fend diskver ops,
+  Z.land HDFmode DFACC_WRITE = 0 ->
+  let '(s', l) := sd_run (sdstart HDFmode dds fend diskver) ops in
+  concat (map snd l) = [] /\ s_header s' = 0 /\ Z.land (s_flags s') NC_RDWR = 0 /\ ro_inv (s_l1 s') /\
+  Forall2 (fun o rw => sd_mutating o = true -> fst rw = FAIL) ops l.
+Proof. exact sd_ro_silent_full. Qed.
+Print Assumptions sd_ro_silent.
+
+Theorem sd_ro_invariant_step : forall h0 s o s' r w,
+  sd_ro_inv h0 s -> sd_step s o = (s', r, w) -> sd_ro_inv h0 s' /\ w = [] /\ (sd_mutating o = true -> r = FAIL).
+Proof. exact sd_step_ro. Qed.
+Print Assumptions sd_ro_invariant_step.
+
+(** the open path (mfsd.c SDstart -> file.c ncopen -> cdf.c NC_new_cdf): a request without DFACC_WRITE becomes NC_NOWRITE,
+    the handle gets no flag at all, and the switch of NC_new_cdf opens the HDF file DFACC_RDONLY *)
+Theorem sd_open_mode_read_only : forall HDFmode, Z.land HDFmode DFACC_WRITE = 0 ->
+  sd_ncmode HDFmode = NC_NOWRITE /\ nc_hdf_mode (sd_ncmode HDFmode) = DFACC_RDONLY /\
+  Z.land (nc_new_cdf_flags (sd_ncmode HDFmode)) sdstart_flag_mask = 0.
+Proof. exact sdstart_readonly_mode. Qed.
+Print Assumptions sd_open_mode_read_only.
+
+Theorem sd_open_mode_write : forall HDFmode, Z.land HDFmode DFACC_WRITE <> 0 ->
+  sd_ncmode HDFmode = NC_WRITE /\ nc_hdf_mode (sd_ncmode HDFmode) = DFACC_RDWR.
+Proof. exact sdstart_write_mode. Qed.
+Print Assumptions sd_open_mode_write.
+
+Theorem sd_guards_refuse_without_rdwr : forall k fl, Z.land fl NC_RDWR = 0 -> sd_guard k fl = 1.
+Proof. exact sd_guard_refuses. Qed.
+Print Assumptions sd_guards_refuse_without_rdwr.
+
+(** exactly fourteen SD functions assign to handle->flags: SDstart, SDend, SDgetdimscale and eleven guarded mutators *)
+Theorem sd_flag_writers :
+  sd_flag_updates_count = 14 /\ sd_flag_updates_sdstart = 1 /\ sd_flag_updates_sdend = 2 /\ sd_flag_updates_sdgetdimscale = 1 /\
+  sd_flag_updates_sdcreate = 1 /\ sd_flag_updates_sdsetdimname = 2 /\ sd_flag_updates_sdsetrange = 1 /\
+  sd_flag_updates_sdsetattr = 1 /\ sd_flag_updates_sdsetdatastrs = 1 /\ sd_flag_updates_sdsetcal = 1 /\
+  sd_flag_updates_sdsetfillvalue = 1 /\ sd_flag_updates_sdsetdimstrs = 1 /\ sd_flag_updates_sdsetdimscale = 1 /\
+  sd_flag_updates_sdsetdimval_comp = 1 /\ sd_flag_updates_sdsetcompress = 1.
+Proof. exact sd_flag_writers_are_modelled. Qed.
+Print Assumptions sd_flag_writers.
+
 (** ---- non-vacuity: a concrete read-only file with a plain element, a special element, a length-less element,
     a vdata and a vgroup; a history mixing successful reads with every kind of write request ---- *)
 Definition ex_dds : list dd :=
@@ -360,6 +407,24 @@ Example ex_granted_reopen_upgrades :
   Z.land (f_access (fst (fst (hopen_again f DFACC_RDWR true)))) DFACC_WRITE = 2 /\
   Z.land (f_access (fst (fst (hopen_again f DFACC_RDWR false)))) DFACC_WRITE = 0.
 Proof. vm_compute. split; reflexivity. Qed.
+
+(** SD: a history with every kind of call; the L1 calls the mutators would issue are real write requests.  Read-only:
+    the mutators fail, SDgetdimscale leaves NC_HDIRTY set, SDend still writes nothing.  The same history after
+    SDstart(DFACC_RDWR): the mutators go ahead, the header changes, device writes happen. *)
+Definition ex_sd_ops : list sdop :=
+  [ SRead [OStartAccess 1000 1 DFACC_READ; ORead 2 10; OEndAccess 2]; SMut 0 [OPutElement 720 9 40]; SMut 3 [OPutElement 1962 9 30];
+    SGetDimScale [OStartAccess 1000 1 DFACC_READ; OEndAccess 2]; SMut 10 [OStartWrite 702 3 64; OWrite 2 64; OEndAccess 2];
+    SSetFill []; SMut 40 []; SEnd [OPutElement 1962 2 100] [OPutElement 1962 3 4] [OVSattach 5 CH_W; OVSwrite 6 1; OVdetach 6] ].
+Example ex_sd_read_only :
+  let '(s', l) := sd_run (sdstart DFACC_READ ex_dds 444 (4, 3, 1)) ex_sd_ops in
+  map fst l = [0; -1; -1; 0; -1; -1; -1; 0] /\ concat (map snd l) = [] /\ s_header s' = 0 /\ s_flags s' = NC_HDIRTY /\ s_open s' = false.
+Proof. vm_compute. repeat split; reflexivity. Qed.
+Example ex_sd_write_mode :
+  let '(s', l) := sd_run (sdstart DFACC_RDWR ex_dds 444 (4, 3, 1)) ex_sd_ops in
+  map fst l = [0; 0; 0; 0; 0; 0; -1; 0] /\ s_header s' = 3 /\ concat (map snd l) <> [].
+Proof. vm_compute. repeat split; try reflexivity. discriminate. Qed.
+Example ex_sd_state_is_read_only : sd_ro_inv 0 (sdstart DFACC_READ ex_dds 444 (4, 3, 1)).
+Proof. apply sdstart_ro_inv. reflexivity. Qed.
 
 (** S: the monitor flags a succeeding mutator, a device write and changed bytes while the file is read-only *)
 Module SpecExample.
